@@ -1,4 +1,5 @@
 #!/bin/bash
+export GOVC_EVIDENCE_DIR=/tmp/govc-seed-evidence
 if [ -n "$(git -C /repo status --porcelain)" ]; then echo "refusing: /repo has uncommitted changes (they would be reverted)"; exit 2; fi
 # Re-runs the quick check of every seeded mutant's property with the patch applied to /repo (reverted afterwards).
 # usage: seed_rerun.sh [seed-id ...]
